@@ -33,8 +33,8 @@ import (
 	"verif/txb"
 
 	"github.com/haqq-network/haqq/crypto/ethsecp256k1"
-	cmn "github.com/haqq-network/haqq/precompiles/common"
 	haqqibc "github.com/haqq-network/haqq/ibc/testing"
+	cmn "github.com/haqq-network/haqq/precompiles/common"
 	haqqtypes "github.com/haqq-network/haqq/types"
 	"github.com/haqq-network/haqq/utils"
 	"github.com/haqq-network/haqq/x/evm/statedb"
